@@ -206,7 +206,9 @@ func okHandler() *svcHandler {
 	}
 }
 
-func fpf(proto string) *frugal.FProtocolFactory { return frugal.NewFProtocolFactory(protoFactory(proto)) }
+func fpf(proto string) *frugal.FProtocolFactory {
+	return frugal.NewFProtocolFactory(protoFactory(proto))
+}
 
 // stubFT is an FTransport whose Request returns scripted bytes.
 type stubFT struct {
@@ -217,10 +219,10 @@ type stubFT struct {
 }
 
 func (s *stubFT) SetMonitor(frugal.FTransportMonitor) {}
-func (s *stubFT) Closed() <-chan error               { return nil }
-func (s *stubFT) Open() error                        { return nil }
-func (s *stubFT) IsOpen() bool                       { return true }
-func (s *stubFT) Close() error                       { return nil }
+func (s *stubFT) Closed() <-chan error                { return nil }
+func (s *stubFT) Open() error                         { return nil }
+func (s *stubFT) IsOpen() bool                        { return true }
+func (s *stubFT) Close() error                        { return nil }
 func (s *stubFT) Oneway(ctx frugal.FContext, p []byte) error {
 	s.mu.Lock()
 	s.sent = append(s.sent, append([]byte{}, p...))
